@@ -336,7 +336,15 @@ func runWatchCase(t *testing.T, o *Out, id, kind string, evs []watchEv, extIdx i
 	exts := []string{".json", ".yaml", ".toml"}
 	lastContent := map[int]string{}
 	var payload strings.Builder
-	fmt.Fprintf(&payload, "%s %d %d", kind, npre, len(evs))
+	// an unrelated hot reload of the configuration file follows version ei (token 3 in the line)
+	reloadAfter := func(ei int) bool { return viaFile && (salt+ei)%2 == 0 && ei+1 >= npre }
+	nline := len(evs)
+	for ei := range evs {
+		if reloadAfter(ei) {
+			nline++
+		}
+	}
+	fmt.Fprintf(&payload, "%s %d %d", kind, npre, nline)
 	for ei, e := range evs {
 		vtok := b2i(e.valid)
 		if e.remove {
@@ -446,7 +454,8 @@ func runWatchCase(t *testing.T, o *Out, id, kind string, evs []watchEv, extIdx i
 		}
 		// an unrelated hot reload of the configuration file (another key changes): the visible
 		// namespaces must not move
-		if viaFile && (salt+ei)%2 == 0 {
+		if reloadAfter(ei) {
+			payload.WriteString(" 0 3 0")
 			for len(cfgReloaded) > 0 {
 				<-cfgReloaded
 			}
